@@ -218,6 +218,38 @@ def _lib_move_bug(old, new, patch):
     return collision(old) or collision(new)
 
 
+def _front_end_patches(old, new):
+    import types
+    from unittest import mock
+    from annet import api, cli_args
+    from annet.annlib.netdev.views.hardware import HardwareView
+    from annet.types import OldNewResult
+    from vf.model import sut  # noqa: F401  (sets the hardware and rulebook connectors)
+    from vf.props.c19 import _Dev, _install
+    _install()
+    path = "/etc/sonic/config_db.json"
+    out = []
+
+    def res_for():
+        return OldNewResult(device=_Dev(HardwareView("PC", "")), old_json_fragment_files={path: copy.deepcopy(old)},
+                            new_json_fragment_files={path: (copy.deepcopy(new), "sudo config reload -y")})
+    res = res_for()
+    args = types.SimpleNamespace(acl_safe=False, indent="  ")
+    with mock.patch.object(api, "res_diff_patch", lambda *a, **kw: iter([(res, None, None)])):
+        shown = list(api._patch_worker("h1", args, None, None, None))
+    if len(shown) != 1:
+        raise Violation("front-end-patch", f"`annet patch` prints {len(shown)} documents for one changed file", {"old": old, "new": new})
+    out.append(("patch", shown[0][1].encode()))
+    res = res_for()
+    job = api.DeployerJob.from_device(res.device, types.SimpleNamespace(acl_safe=False, entire_reload=cli_args.EntireReloadFlag.yes, dont_commit=False))
+    job.parse_result(res)
+    files = (job.deploy_cmds.get(res.device) or {}).get("files", {})
+    if path not in files:
+        raise Violation("front-end-patch", "`annet deploy` uploads nothing for a changed JSON file", {"old": old, "new": new})
+    out.append(("deploy", files[path]))
+    return out
+
+
 def check(case):
     from annet.annlib import jsontools
     labels = []
@@ -281,6 +313,16 @@ def check(case):
         # (ii) the library alone fails on its own patch, (iii) the patch contains such a move and the documents such a key collision.
         bad.detail = dict(det, array_ops=bool(by_arr), third_party_move_bug=_lib_move_bug(old, new, patch))
         labels.append(known_or_raise(PID, bad))
+    # ---- (2b) the same pair through the two front ends that hand a JSON patch to the outside: `annet patch` (api._patch_worker prints it)
+    # and `annet deploy` (PCDeployerJob.parse_result uploads it): what leaves annet, applied to the old file, gives the new file
+    if bad is None and patch is not None and old != new:
+        for how, pbytes in _front_end_patches(old, new):
+            sta2, out2 = _call(jsontools.apply_patch, jsontools.format_json(old).encode(), pbytes)
+            if sta2 == "raise" or json.loads(out2) != new:
+                raise Violation("front-end-patch", f"the JSON patch that `annet {how}` hands out does not turn the old file into the new one: "
+                                f"{(out2 if sta2 == 'raise' else json.loads(out2))!r}"[:600],
+                                dict(det, front_end=how, front_end_patch=json.loads(pbytes), direct_patch=patch))
+        labels.append("front-ends")
     # ---- (3) filters return parts of the document
     d = old
     stf, res = _call(jsontools.apply_acl_filters, copy.deepcopy(d), list(case["filters"]))
